@@ -162,6 +162,12 @@ theorem local_safe : [entry_local_cell_stats, entry_local_combine, entry_local_l
     entry_local_highest_position, entry_local_popularity, entry_local_rank].all entryOk = true := by
   decide +kernel
 
+/-- the translator's verdicts on its self-test (aliasing patterns with a known answer: in-place sort of a
+    `ravel`, kernels writing a parameter, dict / list elements, loop-carried aliases, early returns, closures,
+    `out=`, `a, b = b, a`, …): every bad pattern is rejected and every harmless one accepted -/
+theorem translator_selftest :
+    selftest.all (fun t => safe t.2.1 (inputs t.2.2.1) t.2.2.2.1 == t.2.2.2.2) = true := by decide +kernel
+
 /-- nothing in any generated program was left unclassified by the translator -/
 theorem no_unknown_construct : allEntries.all (fun e => !e.prog.hasUnknown) = true := by decide +kernel
 
